@@ -239,6 +239,25 @@ theorem parseCell_written (E : FloatExt) (m : Str) (t : Ty) (fill : PyVal) (fv :
       rw [if_neg ht, hkey, construct_pyStr E m t fv d ht hd hE]
       simp [expectedCell, ht, hne']
 
+/-- a string that is its own `strip()` does not start with a blank -/
+theorem head_ne_space_of_strip (s : Str) (h1 : strip s = s) : s.head? ≠ some ' ' := by
+  intro hh
+  cases s with
+  | nil => simp at hh
+  | cons c cs =>
+    simp at hh; subst hh
+    have : strip (' ' :: cs) ≠ ' ' :: cs := by
+      intro e
+      have hl : (lstrip (' ' :: cs)).length ≤ cs.length := by
+        simp only [lstrip, List.dropWhile, show isSpacePy ' ' = true by decide]
+        exact (List.dropWhile_suffix _).length_le
+      have hr : (strip (' ' :: cs)).length ≤ (lstrip (' ' :: cs)).length := by
+        simp only [strip, rstrip, List.length_reverse]
+        exact Nat.le_trans (List.dropWhile_suffix _).length_le (by simp)
+      rw [e] at hr
+      simp at hr; omega
+    exact this h1
+
 /-- the written text of a representable cell survives the CSV row codec -/
 theorem written_fieldOK (E : FloatExt) (m : Str) (t : Ty) (fv : Val) (d : Val) (hm : Csv.FieldOK m)
     (hd : CellOK E m t fv d) (hE : FloatSpec E) :
@@ -253,22 +272,7 @@ theorem written_fieldOK (E : FloatExt) (m : Str) (t : Ty) (fv : Val) (d : Val) (
       refine ⟨h2, h3, ?_⟩
       intro hh
       simp only [pyStr] at hh
-      -- a leading blank would be stripped
-      cases s with
-      | nil => simp at hh
-      | cons c cs =>
-        simp at hh; subst hh
-        have : strip (' ' :: cs) ≠ ' ' :: cs := by
-          intro e
-          have hl : (lstrip (' ' :: cs)).length ≤ cs.length := by
-            simp only [lstrip, List.dropWhile, show isSpacePy ' ' = true by decide]
-            exact (List.dropWhile_suffix _).length_le
-          have hr : (strip (' ' :: cs)).length ≤ (lstrip (' ' :: cs)).length := by
-            simp only [strip, rstrip, List.length_reverse]
-            exact Nat.le_trans (List.dropWhile_suffix _).length_le (by simp)
-          rw [e] at hr
-          simp at hr; omega
-        exact this h1
+      exact head_ne_space_of_strip s h1 hh
     | int i => exact (pyStrInt_numText i).fieldOK
     | float x => exact (hE.frepr_text x).fieldOK
     | bool b => cases b <;> simp [pyStr, Csv.FieldOK]
